@@ -109,8 +109,9 @@ Findings on the tree as first read (all reproduced on the real code; witnesses i
   value_info entry) were missed because wf excludes both inputs; they are now oracle-judged streams ('repeated-output',
   'output-with-value-info', also compared model-vs-implementation).  r6m2 (annotation popped from value.meta: a second
   to_proto of the same IR loses it) is caught by serializing every deserialized IR twice (impl_roundtrip.last_twice).
-  New finding (known, proposed_fixes/C02-quantization-annotation-repeated-output.diff): a value listed twice in
-  graph.output gets its quantization annotation twice.
+  Finding quantization-annotation-repeated-output (a value listed twice in graph.output got its annotation twice):
+  fixed b6bf1ea (my proposed_fixes/C02-quantization-annotation-repeated-output.diff); model: dedup_quant on the
+  outputs part; the repeated-output stream now includes annotated repeated outputs.
   Upstream fixes 5e4600e (nodes of nested graphs follow the model's IR-version gate: ser_graph passes irv down,
   wf_graph's allow_dev now covers nested graphs) and 3a09e57 (a repeated initializer name: only the last tensor is
   used — `last_only`, after all tensors are deserialized) landed after the proof was finished: model, wf, generator
@@ -1196,10 +1197,14 @@ def model_output_variants(g: "Gen"):
         gr = g.r.choice(graphs)
         if tag == "repeated-output":
             o = g.r.choice(list(gr.output))
-            # (an annotated repeated output is the recorded finding quantization-annotation-repeated-output)
-            keep = [qa for qa in gr.quantization_annotation if qa.tensor_name != o.name]
-            del gr.quantization_annotation[:]
-            gr.quantization_annotation.extend(keep)
+            # the repeated output may carry a quantization annotation: written once (b6bf1ea)
+            produced = {y for n in gr.node for y in n.output}
+            if (o.name in produced and o.name not in {qa.tensor_name for qa in gr.quantization_annotation}
+                    and g.chance(0.6)):
+                qa = gr.quantization_annotation.add()
+                qa.tensor_name = o.name
+                qa.quant_parameter_tensor_names.add(key="SCALE_TENSOR", value="s_rep")
+                g.h("model:repeated-output-annotated")
             dup = onnx.ValueInfoProto()
             dup.CopyFrom(o)
             pos = g.r.randrange(len(gr.output) + 1)
@@ -1891,7 +1896,7 @@ def run(ck) -> None:
     ck.prove()
     # the principal theorem C02_roundtrip (and every stage theorem) is proved; see Property.v
     ck.level = "proof"
-    n_models = 200 if not ck.thorough else 3000
+    n_models = 170 if not ck.thorough else 3000
     # 1. corpus
     corpus_dir = os.path.join(common.CORPUS, "C02")
     corpus_cases: dict[str, list[dict]] = {k: [] for k in KINDS}
@@ -1901,6 +1906,8 @@ def run(ck) -> None:
                 with open(os.path.join(corpus_dir, fn)) as f:
                     e = json.load(f)
                 c = make_case(e["kind"], proto_from(e["kind"], e["proto_b64"]), bool(e.get("supported", False)))
+                if c and e.get("oracle_supported"):
+                    c["oracle_supported"] = True
                 if c:
                     corpus_cases[e["kind"]].append(c)
     # 2. generated + backend seeds
